@@ -82,8 +82,9 @@ TSStart(tb, n, attrs, sc) ==
   LET g  == IF tb.strict THEN GuardStart(tb, n) ELSE [guard |-> tb.guard, depth |-> tb.depth, err |-> FALSE]
       t  == [tb EXCEPT !.guard = g.guard, !.depth = g.depth]
   IN IF g.err THEN [tb |-> t, tt |-> "", cdata |-> Cur(t) # "html", set |-> FALSE, err |-> TRUE]
-     ELSE IF n = n_svg THEN Enter(t, "svg")
-     ELSE IF n = n_math THEN Enter(t, "mathml")
+     \* (a self-closing <svg/> or <math/> is popped right away: the namespace is not entered)
+     ELSE IF n = n_svg THEN (IF sc THEN Keep(t, "") ELSE Enter(t, "svg"))
+     ELSE IF n = n_math THEN (IF sc THEN Keep(t, "") ELSE Enter(t, "mathml"))
      ELSE IF Cur(t) # "html" THEN ForeignStart(t, n, attrs, sc)
      ELSE Keep(t, TextTypeFor(n))
 
@@ -106,9 +107,10 @@ Hashable(n) == /\ \A i \in 1..Len(n) : (n[i] >= 97 /\ n[i] <= 122) \/ (n[i] >= 4
 \* the simulator cannot answer from the name alone
 NeedsLexeme(sim, n, isEnd) ==
   IF isEnd THEN Cur(sim) = "html" /\ Len(sim.ns) >= 2 /\ sim.ns[Len(sim.ns) - 1] = "mathml" /\ ~Hashable(n)
-  ELSE /\ n # n_svg /\ n # n_math /\ Cur(sim) # "html" /\ n \notin ForeignExit
-       /\ \/ (Cur(sim) = "svg" /\ n \in SvgHtmlIP) \/ (Cur(sim) = "mathml" /\ n \in MathTextIP)
-          \/ n = n_font
-          \/ (~Hashable(n) /\ Cur(sim) = "mathml")
+  ELSE \/ n = n_svg \/ n = n_math        \* the self-closing flag decides whether the namespace is entered
+       \/ /\ Cur(sim) # "html" /\ n \notin ForeignExit
+          /\ \/ (Cur(sim) = "svg" /\ n \in SvgHtmlIP) \/ (Cur(sim) = "mathml" /\ n \in MathTextIP)
+             \/ n = n_font
+             \/ (~Hashable(n) /\ Cur(sim) = "mathml")
 
 =============================================================================
